@@ -44,7 +44,7 @@ def floors(tier):
     return {"distinct_nontrivial": 20, "count:basis_currents": 100, "count:comparisons": 2000}
 
 
-POINTSETS = ["one_list", "one_array", "two", "five", "m2_scalar_z", "m2_array_z", "below", "far", "int_xy_scalar_z", "int_one"]
+POINTSETS = ["one_list", "one_array", "two", "five", "m2_scalar_z", "m2_array_z", "below", "far", "int_xy_scalar_z", "int_one", "int_all"]
 
 
 def cases(tier, seed):
@@ -84,6 +84,7 @@ def point_sets(scale=1.0):
         # integer-typed coordinates (np.arange grids, literal lists) with a fractional height
         "int_xy_scalar_z": (np.array([1, 2, -1]), np.array([0, -1, 2]), 0.5),
         "int_one": ([1], [2], 1.5),
+        "int_all": (np.array([1, -1]), np.array([2, 0]), np.array([1, 2])),
     }
     out = {}
     for k, (x, y, z) in P.items():
@@ -94,7 +95,7 @@ def point_sets(scale=1.0):
         isc = int(scale) if float(scale).is_integer() else scale  # keep integer-typed coordinates integer-typed
         xx = [v * isc for v in x] if isinstance(x, list) else np.asarray(x) * isc
         yy = [v * isc for v in y] if isinstance(y, list) else np.asarray(y) * isc
-        zz = [v * scale for v in z] if isinstance(z, list) else (z * scale if np.isscalar(z) else np.asarray(z) * scale)
+        zz = [v * scale for v in z] if isinstance(z, list) else (z * scale if np.isscalar(z) else np.asarray(z) * (isc if np.asarray(z).dtype.kind == "i" else scale))
         out[k] = (xx, yy, zz, np.column_stack([xs, ys, zs]))
     return out
 
@@ -284,6 +285,8 @@ def run_sol(case):
             if pn in ("int_xy_scalar_z", "int_one") and float(canon[0, 0]).is_integer():
                 # integer-typed (m,2) positions with a scalar float height
                 forms = [("int_m2+scalar", dict(positions=np.asarray(canon[:, :2]).astype(int) if len(canon) > 1 else [int(canon[0, 0]), int(canon[0, 1])], zs=float(canon[0, 2])))]
+            if pn == "int_all" and float(canon[0, 0]).is_integer():
+                forms = [("int_m3", dict(positions=np.asarray(canon).astype(int))), ("int_m2+int_array", dict(positions=np.asarray(canon[:, :2]).astype(int), zs=np.asarray(canon[:, 2]).astype(int)))]
             wantB_s = ref_B(canon * LEN[lu], src_si, Ks_si, a_si) / FU[fu]
             wantB_n = ref_B(canon * LEN[lu], src_si, Kn_si, a_si) / FU[fu]
             wantA_s = ref_A(canon * LEN[lu], src_si, Ks_si, a_si) / (FU[fu] * LEN[lu])
